@@ -23,7 +23,7 @@ def gen_exec_validate(ctx, prop, prm, module="Val_Streams", gen="Gen_Streams", m
     return exec_validate(ctx, prop, req, module=module, mode=mode, min_lines=min_lines)
 
 
-def exec_validate(ctx, prop, req, module="Val_Streams", mode="text", min_lines=1500):
+def exec_validate(ctx, prop, req, module="Val_Streams", mode="text", min_lines=1500, drift=True):
     obs = ctx.path("obs.ndjson")
     h = vlib.harness(ctx, mode, req, obs)
     if h["rc"] != 0:
@@ -34,7 +34,7 @@ def exec_validate(ctx, prop, req, module="Val_Streams", mode="text", min_lines=1
         return None, obs, h
     ctx.evaluations += h["records"]
     res = vlib.validate(ctx, module, "Val.cfg", obs, trace=False, min_lines=min_lines,
-                        env={"PROP": prop, "DRIFT": "1"}, heap="2500m")
+                        env={"PROP": prop, "DRIFT": "1" if drift else "0"}, heap="2500m")
     ctx.extra["drift_checked"] = ctx.extra.get("drift_checked", 0) + res.get("drift_checked", 0)
     want = {f["i"] for f in res["pbad"]}
     recs = {}
